@@ -40,7 +40,38 @@ Orderings (ensures: the result is valid for the input; nothing about WHICH valid
 
 Oracles are exact (integers / fractions.Fraction) and written from the definitions; nothing is taken from the code.
 
-Findings on the unchanged tree and detection power: see the end of this docstring.
+Unchanged tree -- violations (kept strict, reported to the lead); everything else holds on every enumerated case:
+  F1 "point_in_polygon: exact answer off the boundary" / "non-convex, interior point collinear with an edge, default=False",
+     "convex|non-convex, exterior point collinear with an edge, default=True": a query that lies on the LINE through some
+     edge (not on the edge) makes `edge_sgn == 0`, is taken for "on the boundary" and gets `default`:
+       L = [[0,4,4,2,2,0],[0,0,2,2,4,4]]; point_in_polygon(L, [[2.],[1.]]) -> [False]   ((2,1) is strictly inside)
+       sq = [[0,4,4,0],[0,0,4,4]];        point_in_polygon(sq, [[5.],[0.]], default=True) -> [True]   ((5,0) is outside)
+  F2 "point_in_polyhedron: exact answer off the boundary" / "non-convex, interior point coplanar with a face": the
+     ValueError "Origin point is coplanar with the vertices" is mapped to "outside"; an interior point of a non-convex
+     polyhedron can lie in the plane of a face: L-prism (cubes [0,2]^3, [2,4]x[0,2]^2, [0,2]x[2,4]x[0,2]), p=(2,1,1) -> False.
+  F3 "points_are_collinear: exact answer" / "3|4 points, the only off-line point is the last one": the loop runs over
+     pts[:, 1:-1], the last point is never tested: points_are_collinear([[0,1,0],[0,0,1],[0,0,0]]) -> True.
+  F4 "sort_point_pairs: does not raise on a valid chain" / "open chain with tag row sharing values with the node
+     labels": with is_circular=False the end nodes are found with np.bincount(lines.ravel()), which also counts the extra
+     rows: sort_point_pairs(np.array([[0,1],[1,2],[0,2]]), is_circular=False) -> IndexError (rows 0-1: chain 0-1-2, row 2: tags).
+
+Detection power (scratch copy of /repo/src under /var/tmp, POREPY_SRC=<copy>, one bug at a time, quick tier; each gave
+exit 1 with VIOLATION lines whose (obligation, signature) do not occur on the unchanged tree):
+  M1  is_ccw_polygon: `(p_1[i+1] + p_1[i])` -> `-`                      -> "is_ccw_polygon: sign of the exact signed area"
+  M2  is_ccw_polyline: `cross_product < -tol` -> `< -tol - 1`           -> "is_ccw_polyline: sign of the exact cross product"
+  M3  point_in_polygon: `np.abs(winding_number) > 0` -> without abs     -> "point_in_polygon: ..." (interior point, cw polygons)
+  M4  point_in_polygon: tie-break `vertex_sgn_poly[hit] = sign(y)` dropped -> "point_in_polygon: ..." (exterior point)
+  M5  points_are_planar: atol=tol -> atol=1.0                           -> "points_are_planar: exact answer" (planar=False)
+  M6  point_in_polyhedron: `num_points += simplices.max() + 1` -> no +1 -> "point_in_polyhedron: does not raise ..." / "... convex, interior point"
+  M7  half-space test: `in_hull == n` -> `>= n - 1`                     -> "point_inside_half_space_intersection: ..." (exterior point)
+  M8  half_space_interior_point: division by x4 dropped                 -> "half_space_interior_point: returned point is strictly inside ..."
+  M9  sort_point_pairs: flipped-branch `prev = lines[0, j]` -> `[1, j]` -> "sort_point_pairs: does not raise on a valid chain" (cycle, open chain)
+  M10 sort_point_plane: argsort(arctan2(..)) -> argsort(x)              -> "sort_point_plane: result is the cyclic angular order ..."
+  M11 sort_points_on_line: argsort(p) -> argsort(|p|)                   -> "sort_points_on_line: result is monotone along the line"
+  M12 sort_triangle_edges: `hit_new_1 - hit_new_0 == 1` -> `== 2`       -> "sort_triangle_edges: no directed edge occurs twice" (+ point_in_polyhedron)
+  M13 point_in_polyhedron: `np.abs(wn) > tol` -> `wn > tol`             -> "point_in_polyhedron: ..." (interior point)
+  M14 points_are_collinear: `np.cross(p - pt0, pt1 - pt0)` -> `np.cross(p - pt0, pt1)` -> "points_are_collinear: exact answer" (collinear)
+  (not detectable: `pts[:, 1:-1]` -> `pts[:, 2:-1]` in points_are_collinear is an equivalent mutant -- p1 is trivially on the line p0-p1.)
 """
 from __future__ import annotations
 
@@ -738,7 +769,7 @@ def sweep_sort_point_plane(rep, pp, quick):
                     try:
                         got = [int(i) for i in f(_arr(pts), np.array(c, dtype=float), **kw)]
                     except Exception as exn:  # noqa: BLE001
-                        rep.violation("sort_point_plane: does not raise on a planar star-shaped set", f"plane {name}, normal {mode}",
+                        rep.violation("sort_point_plane: does not raise on a planar star-shaped set", f"plane {name}, normal {'computed' if mode == 'none' else 'given'}",
                                       inputs={"fn": "sort_point_plane", "points": pts, "centre": c, "normal": mode}, detail=f"{type(exn).__name__}: {exn}")
                         continue
                     ok = sorted(got) == list(range(len(pts)))
@@ -747,7 +778,7 @@ def sweep_sort_point_plane(rep, pp, quick):
                         rot = got[k:] + got[:k]
                         ok = rot == ex or rot == [ex[0]] + ex[:0:-1]
                     if not ok:
-                        rep.violation("sort_point_plane: result is the cyclic angular order about the centre", f"plane {name}, normal {mode}",
+                        rep.violation("sort_point_plane: result is the cyclic angular order about the centre", f"plane {name}, normal {'computed' if mode == 'none' else 'given'}",
                                       inputs={"fn": "sort_point_plane", "points": pts, "centre": c, "normal": mode},
                                       detail=f"points {pts} centre {c}: returned {got}, exact ccw order {ex}")
 
@@ -782,12 +813,12 @@ def sweep_sort_points_on_line(rep, pp, quick):
                     try:
                         got = [int(i) for i in f(_arr(pts))]
                     except Exception as ex:  # noqa: BLE001
-                        rep.violation("sort_points_on_line: does not raise on collinear points", f"direction {d}",
+                        rep.violation("sort_points_on_line: does not raise on collinear points", "collinear lattice points" + (", axis-parallel line" if sum(1 for x in d if x) == 1 else ""),
                                       inputs={"fn": "sort_points_on_line", "points": pts}, detail=f"{type(ex).__name__}: {ex} for {pts}")
                         continue
                     seq = [ts[i] for i in got] if sorted(got) == list(range(len(ts))) else None
                     if seq is None or not (all(a < b for a, b in zip(seq, seq[1:])) or all(a > b for a, b in zip(seq, seq[1:]))):
-                        rep.violation("sort_points_on_line: result is monotone along the line", f"direction {d}",
+                        rep.violation("sort_points_on_line: result is monotone along the line", "collinear lattice points" + (", axis-parallel line" if sum(1 for x in d if x) == 1 else ""),
                                       inputs={"fn": "sort_points_on_line", "points": pts}, detail=f"points {pts}: returned {got}, parameters {seq}")
 
 
